@@ -288,9 +288,95 @@ pub fn chain_of(s: &str) -> chain::Id {
     s.try_into().expect("valid chain id")
 }
 
-/// sign entry `idx` of `commit` (as it stands) with `key`, store the signature in the entry
+// ---------- independent canonical-vote encoding ----------
+//
+// What a validator signs is CometBFT's CanonicalVote (protobuf, length-delimited):
+//   1 type (varint; precommit = 2)   2 height (sfixed64)   3 round (sfixed64)
+//   4 block_id { 1 hash (bytes), 2 part_set_header { 1 total (uint32), 2 hash (bytes) } }
+//   5 timestamp { 1 seconds (int64), 2 nanos (int32) }   6 chain_id (string)
+// proto3: zero / empty scalars are omitted; a present sub-message is always written.
+// This encoder is written by hand from the CometBFT wire format and uses neither lumina's
+// `vote_sign_bytes` nor tendermint-rs' `Vote`/`CanonicalVote`; commits are SIGNED over it and an
+// independent validity bit is computed over it with ed25519-consensus directly, so that the
+// sign bytes produced by the code under test are themselves checked (a dropped chain id, a
+// wrong height/round/timestamp, … makes the two oracles differ).
+
+fn pb_varint(mut v: u64, out: &mut Vec<u8>) {
+    loop {
+        let b = (v & 0x7f) as u8;
+        v >>= 7;
+        if v == 0 {
+            out.push(b);
+            break;
+        }
+        out.push(b | 0x80);
+    }
+}
+
+fn pb_bytes_field(tag: u8, b: &[u8], out: &mut Vec<u8>) {
+    out.push(tag << 3 | 2);
+    pb_varint(b.len() as u64, out);
+    out.extend_from_slice(b);
+}
+
+/// canonical precommit vote bytes for entry `idx` of the commit given in line form
+pub fn canonical_vote_bytes(chain: &str, c: &LCommit, idx: usize) -> Option<Vec<u8>> {
+    let e = c.sigs.get(idx)?;
+    if e.flag == 0 {
+        return None;
+    }
+    let mut m = vec![];
+    m.extend_from_slice(&[0x08, 0x02]); // type = SIGNED_MSG_TYPE_PRECOMMIT
+    if c.height != 0 {
+        m.push(2 << 3 | 1);
+        m.extend_from_slice(&(c.height as i64).to_le_bytes());
+    }
+    if c.round != 0 {
+        m.push(3 << 3 | 1);
+        m.extend_from_slice(&(c.round as i64).to_le_bytes());
+    }
+    let zero_id = c.bid.is_none() && c.psh.is_none() && c.pst == 0;
+    if !zero_id {
+        let mut psh = vec![];
+        if c.pst != 0 {
+            psh.push(0x08);
+            pb_varint(c.pst as u64, &mut psh);
+        }
+        if let Some(h) = &c.psh {
+            pb_bytes_field(2, h, &mut psh);
+        }
+        let mut bid = vec![];
+        if let Some(h) = &c.bid {
+            pb_bytes_field(1, h, &mut bid);
+        }
+        pb_bytes_field(2, &psh, &mut bid);
+        pb_bytes_field(4, &bid, &mut m);
+    }
+    let secs = e.ts.div_euclid(1_000_000_000) as i64;
+    let nanos = e.ts.rem_euclid(1_000_000_000) as i64;
+    let mut ts = vec![];
+    if secs != 0 {
+        ts.push(0x08);
+        pb_varint(secs as u64, &mut ts);
+    }
+    if nanos != 0 {
+        ts.push(0x10);
+        pb_varint(nanos as u64, &mut ts);
+    }
+    pb_bytes_field(5, &ts, &mut m);
+    if !chain.is_empty() {
+        pb_bytes_field(6, chain.as_bytes(), &mut m);
+    }
+    let mut out = vec![];
+    pb_varint(m.len() as u64, &mut out);
+    out.extend(m);
+    Some(out)
+}
+
+/// sign entry `idx` of `commit` (as it stands) with `key` over the INDEPENDENT canonical vote
+/// bytes, store the signature in the entry
 pub fn sign_entry(commit: &mut Commit, chain: &chain::Id, idx: usize, key: &SigningKey) {
-    let bytes = commit.vote_sign_bytes(chain, idx).expect("vote sign bytes");
+    let Some(bytes) = canonical_vote_bytes(chain.as_str(), &of_commit(commit), idx) else { return };
     let sig = key.sign(&bytes).to_bytes();
     match &mut commit.signatures[idx] {
         CommitSig::BlockIdFlagAbsent => {}
@@ -298,6 +384,40 @@ pub fn sign_entry(commit: &mut Commit, chain: &chain::Id, idx: usize, key: &Sign
             *signature = Some(Signature::new(sig).unwrap().unwrap());
         }
     }
+}
+
+/// THE INDEPENDENT ORACLE: entry `j`'s signature under the raw ed25519 key `pk`, verified with
+/// ed25519-consensus directly over the independently encoded canonical vote
+pub fn sig_ok_indep(pk: &[u8], commit: &Commit, chain: &chain::Id, j: usize) -> bool {
+    let lc = of_commit(commit);
+    let Some(sig) = lc.sigs.get(j).and_then(|e| e.sig.clone()) else { return false };
+    let Some(bytes) = canonical_vote_bytes(chain.as_str(), &lc, j) else { return false };
+    let (Ok(pk), Ok(sig)) = (<[u8; 32]>::try_from(pk), <[u8; 64]>::try_from(sig.as_slice())) else { return false };
+    let Ok(vk) = ed25519_consensus::VerificationKey::try_from(pk) else { return false };
+    vk.verify(&ed25519_consensus::Signature::from(sig), &bytes).is_ok()
+}
+
+/// independent bits for light verification: entry j under validator j
+pub fn light_ibits(set: &Set, commit: &Commit, chain: &chain::Id) -> Vec<u8> {
+    (0..commit.signatures.len())
+        .map(|j| match set.validators().get(j) {
+            Some(info) => sig_ok_indep(&info.pub_key.to_bytes(), commit, chain, j) as u8,
+            None => 0,
+        })
+        .collect()
+}
+
+/// independent bits for trusting verification
+pub fn trusting_ibits(set: &Set, commit: &Commit, chain: &chain::Id) -> Vec<u8> {
+    (0..commit.signatures.len())
+        .map(|j| {
+            let Some(a) = commit.signatures[j].validator_address() else { return 0 };
+            match set.validators().iter().find(|v| v.address == a) {
+                Some(info) => sig_ok_indep(&info.pub_key.to_bytes(), commit, chain, j) as u8,
+                None => 0,
+            }
+        })
+        .collect()
 }
 
 /// THE ORACLE: does the signature carried by entry `j` of `commit` verify, with the real code,
@@ -644,18 +764,28 @@ pub fn dah_of(rows: &[Vec<u8>], cols: &[Vec<u8>]) -> Option<DataAvailabilityHead
 pub fn fmt_eh_full(eh: &ExtendedHeader, pre: &str, raw: bool) -> String {
     let rows: Vec<Vec<u8>> = eh.dah.row_roots().iter().map(|r| r.to_vec()).collect();
     let cols: Vec<Vec<u8>> = eh.dah.column_roots().iter().map(|r| r.to_vec()).collect();
-    let bits = light_bits(&eh.validator_set, &eh.commit, &eh.header.chain_id);
     format!(
-        "{} {} {} {pre}rows={} {pre}cols={} {pre}xh={} {pre}xv={} {pre}xd={} {pre}xb={}",
+        "{} {} {} {pre}rows={} {pre}cols={} {}",
         fmt_header(&eh.header, pre),
         fmt_commit(&of_commit(&eh.commit), pre),
         fmt_set(&of_set(&eh.validator_set, raw), pre),
         hxl(&rows),
         hxl(&cols),
+        oracle_words(eh, pre),
+    )
+}
+
+/// the oracle words of a header, computed with the real code (`xh` `xv` `xd` `xb`) and, for `xi`,
+/// with the independent canonical-vote encoding; printed on the op line by the generator and
+/// RE-computed and printed on the result line by `run` (the model echoes the op line's)
+pub fn oracle_words(eh: &ExtendedHeader, pre: &str) -> String {
+    format!(
+        "{pre}xh={} {pre}xv={} {pre}xd={} {pre}xb={} {pre}xi={}",
         fmt_hash(&eh.header.hash()),
         fmt_hash(&eh.validator_set.hash()),
         fmt_hash(&eh.dah.hash()),
-        bits_str(&bits),
+        bits_str(&light_bits(&eh.validator_set, &eh.commit, &eh.header.chain_id)),
+        bits_str(&light_ibits(&eh.validator_set, &eh.commit, &eh.header.chain_id)),
     )
 }
 
@@ -671,8 +801,9 @@ pub fn parse_eh_full(line: &str, pre: &str) -> Option<ExtendedHeader> {
 }
 
 pub fn validate_str(eh: &ExtendedHeader) -> String {
-    match eh.validate() {
-        Ok(()) => "ok".into(),
+    let v = match eh.validate() {
+        Ok(()) => "ok".to_string(),
         Err(e) => format!("err {}", err_kind(&e)),
-    }
+    };
+    format!("{v} {}", oracle_words(eh, ""))
 }
